@@ -1,7 +1,7 @@
 (* Prop_C13.v — property theorems for C13, and nothing else: each statement is closed
    by `exact <lemma>` and followed by Print Assumptions. *)
 From Dig Require Import Base Sig State Graph GraphProofs Register Resolve Run Spec Check
-  ErrTable Err ErrTableCheck ErrCauseCheck.
+  ErrTable Err ErrTableCheck ErrCauseCheck Check13 P_Once P_Keys.
 
 (* ---- C13: classification of every error the model can build, over the
         error-type table regenerated from /repo ---- *)
@@ -20,3 +20,11 @@ Print Assumptions C13_classification.
 Theorem C13_no_foreign_cause : no_foreign_cause cause_sites = true.
 Proof. exact no_foreign_cause_now. Qed.
 Print Assumptions C13_no_foreign_cause.
+
+(* ---- C13 on runs: the classification checker accepts every model trace; the
+        invoked function's own error is returned unwrapped; panics surface as
+        PanicError (recovered) or reach the caller (not recovered) ---- *)
+Theorem C13_holds : forall cfg b du h, P_Once.wf_fns h = true ->
+  chk_C13 h (map obs_of (run cfg b du h)) (map flag_of (run cfg b du h)) = [].
+Proof. exact P_Keys.chk_C13_ok. Qed.
+Print Assumptions C13_holds.
